@@ -507,6 +507,12 @@ class InClass:
         overlap = int_param(params, md, 'overlap', 0)
         orphan = int_param(params, md, 'orphan', '0')
         start, end, sz = opt(start, end, size, orphan, sequence)
+        # opt returns an explicitly given end as is: make sure it does not
+        # lie beyond the sequence (probing, to stay lazy)
+        try:
+            sequence[end - 1]
+        except IndexError:
+            end = len(sequence)
         if 'next' in params:
             next = 1
         if 'previous' in params:
